@@ -53,6 +53,7 @@ type NativeFn struct {
 	Call func(ex *Exec, g *G, args []Value) Value
 	// Visible marks the call as a scheduling point.
 	Visible bool
+	Objs    func() []int
 }
 
 // TokenV is an opaque message with symbolic identity (see vt.Msg).
